@@ -158,22 +158,6 @@ def _json_dumps(sx, args, kwargs, st, node):
     return [R(st, r)]
 
 
-def coerce_str(self, v, st):
-    v = self.deref(self.lift(v) if isinstance(v, Conc) else v, st)
-    if isinstance(v.ty, V._Str):
-        return v
-    if isinstance(v.ty, V._Json):
-        j = J()
-        r = self.fresh(V.Str, "jtext", st)
-        st.assume(z3.Implies(j["kind"](v.term) == B.JSTR, r.term == j["str"](v.term)))
-        return r
-    return self.fresh(V.Str, "text", st)
-
-
-from pyvc.sx import SX  # noqa: E402
-SX.coerce_str = coerce_str
-
-
 class TimeoutCM:
     def enter(self, sx, st, node):
         return [R(st, NONE)]
@@ -488,3 +472,14 @@ start_client.param_defaults = {
     "ws_close": lambda sx, st: Func(_ws_close, "ws_close"),
     "log": lambda sx, st: LOGGER,
 }
+
+start_client.obligation_props = [
+    ("iter:one-ok-per-event", ["C06"]), ("iter:at-most-one-ok", ["C06"]), ("iter:ok-", ["C06"]), ("iter:event-stored-at-most-once", ["C06"]),
+    ("iter:no-ok-without-event", ["C06"]),
+    ("iter:refused-req", ["C13"]), ("iter:accepted-req", ["C13"]), ("iter:req-reaches", ["C13"]), ("iter:subscribe-only-for-req", ["C13"]),
+    ("iter:identity-unchanged", ["C15"]), ("iter:authenticate-", ["C15"]), ("inv:challenge-fixed", ["C15"]), ("inv:one-challenge", ["C15"]),
+    ("post:one-challenge", ["C15"]),
+    ("iter:limiter-before-effects", ["C18"]),
+    ("iter:no-close-while-continuing", ["C19"]), ("iter:no-auth-frame-in-loop", ["C19"]), ("exc:", ["C19"]), ("post:", ["C19"]),
+    ("inv:", ["C19"]),
+]
